@@ -64,6 +64,10 @@ def run(ctx):
         cases.append({"kind": "roundtrip", "obj": "fiber", "via": rng.choice(["dict", "yaml"]), "tree": tn, "depth": depth, "d": d})
         if depth >= 2 and rng.random() < 0.5:
             cases.append({"kind": "roundtrip", "obj": rng.choice(["tensor", "fiber"]), "via": "yaml", "tree": t, "depth": depth, "flatten": depth - 1})
+        if depth >= 2 and rng.random() < 0.5:
+            # a tensor flattened with linear coordinates: integer coordinates, but a NESTED rank id ([['K','M'],'N']) and a product shape
+            cases.append({"kind": "roundtrip", "obj": "tensor", "via": "yaml", "tree": t, "depth": depth, "flatten": rng.randint(1, depth - 1), "fstyle": "linear",
+                          "loader": rng.choice(["fromYAMLfile", "ctor"])})
         if depth >= 2:
             # tuple coordinates (flat and nested pair style) through the dictionary form
             cases.append({"kind": "roundtrip", "obj": "fiber", "via": "dict", "tree": t, "depth": depth, "flatten": depth - 1, "fstyle": rng.choice(["tuple", "pair"])})
